@@ -134,6 +134,9 @@ def _gather(
             )
 
     def _gather_tensor(tensor, dest_container=None, dest_key=None):
+        if dest_container is None and hasattr(tensor, "_gather_non_tensor"):
+            # a stack of non-tensor data has no leaf torch.gather could act on
+            return tensor._gather_non_tensor(dim, index)
         if dest_container is not None:
             dest = dest_container._get_str(dest_key, default=NO_DEFAULT)
         else:
